@@ -426,6 +426,11 @@ def c09(tier):
                            connect=dict(poll=1.0, close_timeout=3.0),
                            app=dict(actions=['close', 'close_default'], max_actions=1, only_events=['connected', 'ready', 'text']),
                            fault=dict(ops=['sendall'], kinds=['oserror', 'exception'], max=1, skip={'sendall': 1}), max_waits=30))
+    specs.append(life_spec('single-fault-compressed', tags,
+                           'as single-fault with permessage-deflate negotiated (abstract zlib): the application sends go through the compressed send path',
+                           server=dict(kind='fixed', hex='810161' + '890170' + '8800'), compress=True,
+                           fault=dict(ops=['sendall', 'recv', 'wait', 'shutdown', 'close'], kinds=['oserror', 'exception'], max=1),
+                           app=dict(actions=['send_text', 'send_binary', 'close'], max_actions=1)))
     if not q:
         specs.append(life_spec('double-fault', tags, 'all ordered pairs of faults',
                                server=dict(kind='fixed', hex='810161' + '890170' + '8800'),
@@ -469,6 +474,10 @@ def c13(tier):
                                connect=dict(poll=1.0, ping_rate=1.0, ping_timeout=3.0, close_timeout=2.0), abandon_mechanism=mech,
                                record_selector=True, app=dict(actions=['abandon', 'close'], max_actions=2), max_waits=30,
                                must_reach=['abandon@unresponsive']))
+    specs.append(life_spec('abandon-break-compressed', tags,
+                           'permessage-deflate negotiated; the application abandons at a solver-chosen event, optionally after a compressed send or close()',
+                           server=dict(kind='grammar', K=2, alphabet=['text', 'ping', 'close']), connect=dict(poll=0.0), abandon_mechanism='break',
+                           compress=True, record_selector=True, app=dict(actions=['abandon', 'send_text', 'close'], max_actions=2)))
     for mech in ['break', 'gen.close']:
         specs.append(life_spec('abandon-%s-bad-streams' % mech.replace('.', '-'), tags,
                                'handshake variant (valid/200/no-upgrade/wrong-accept/garbage/oversize) x 2 raw symbolic frame bytes (protocol errors) x '
